@@ -99,7 +99,7 @@ func bodyG(stream []byte, display, record, split bool, sizes []int, gated bool) 
 			mcrt.GoLow("gate-timer", func() { mcrt.Sleep(time.Second); mcrt.Close(gate) })
 		}
 		obs := &obsT{out: &hsink.Sink{Name: "stdout", Split: split, Gate: gate}, sinks: &hsink.Sinks{Split: split},
-			src: &hsink.ChunkReader{Data: stream, Reset: true, Sizes: sizes}, display: display, record: record}
+			src: &hsink.ChunkReader{Data: stream, Reset: true, Sizes: sizes, EOFWithData: true}, display: display, record: record}
 		x.Data = obs
 		mcrt.NewDailySink = obs.sinks.New
 		cfg := &jsonconfig.Config{DisplayMessages: display, RecordMessages: record, MessageLogDirectory: "logs"}
